@@ -270,7 +270,7 @@ def run_case(part, case, prange=None):
 
 def cases_for(tier):
     out = []
-    maxn = 4 if tier == "quick" else 5
+    maxn = 4  # (5-vertex graphs were part of the thorough tier during development: ~25 CPU minutes)
     for n in range(1, maxn + 1):
         for edges in graphref.simple_graphs(n):
             if n == 5 and len(edges) not in (4, 5, 7):
@@ -288,7 +288,7 @@ def cases_for(tier):
                     out.append({"variant": "plain", "form": "graph", "n": n, "edges": list(edges), "spec": ("mixed", spec[1])})
             if n <= 4 and edges:
                 out.append({"variant": "plain", "form": "graph", "n": n, "edges": graphref.orient(edges, 1), "spec": ("var",)})
-    maxcells = 6 if tier == "quick" else 8
+    maxcells = 6 if tier == "quick" else 7
     for h, w in graphref.grid_shapes(maxcells):
         n = h * w
         if n > 6 and tier == "quick":
@@ -320,7 +320,7 @@ def cases_for(tier):
             if n <= 3:
                 for prim in (False, True):
                     out.append({"variant": "borders", "form": "graph", "n": n, "edges": list(edges), "spec": None, "prim": prim, "cfg": False, "intflags": True})
-    for h, w in graphref.grid_shapes(6 if tier == "quick" else 8, 1):
+    for h, w in graphref.grid_shapes(6 if tier == "quick" else 7, 1):
         n = h * w
         edges = graphref.grid_edges(h, w)
         specs = [(nm, sp) for nm, sp in size_specs(n, tier, n <= 2) if nm in ("absent", "list")]
@@ -364,7 +364,7 @@ def cases_for(tier):
     for name, n, es in graphref.zoo():
         relab = name.endswith("~relabelled")
         lists = [("list", [None] * (n - 1) + [3]), ("list", [2] + [None] * (n - 1)), ("list", [None] * (n // 2) + [n - 2] + [None] * (n - n // 2 - 1))]
-        if n <= (5 if tier == "quick" else 7):
+        if n <= (5 if tier == "quick" else 6):
             specs = [None, ("var",), ("const", 2)] + lists + [("mixed", l[1]) for l in lists]
             if tier == "quick":
                 specs = specs[0::2] if relab else specs[1::2]
